@@ -278,6 +278,8 @@ def obligations(tier):
                 obs.append(ob_ibin(op, 1, 1, T))
             else:
                 obs.append(ob_ibin(op, 2, 1, T))
+        obs.append(ob_ibin("dejitter", 1, 0, 60))  # a reference tier without entries
+        obs.append(ob_pbin("dejitter", 1, 0, 60))
         obs.append(ob_ibin("morph", 0, 0, 60))
         obs.append(ob_ibin("morph", 2, 2, T))
         obs.append(ob_construct_interval(2, [" x", "y "], 120))
